@@ -30,7 +30,8 @@ OPS = ['queued', 'running', 'set_result', 'set_exc', 'set_exc_override', 'cancel
 # 'obs' (threads only): what a user sees - 'pending' while done has not been announced, afterwards what result() gives
 # 'final_task' (threads only): what Task.__call__ does for a transfer's final task - skip the work if the transfer is already done,
 # otherwise store the result; then announce done
-THR_OPS = OPS + ['obs', 'obs', 'final_task']
+# 'poll_done' (threads only): future.done() as a poller sees it
+THR_OPS = OPS + ['obs', 'obs', 'final_task', 'poll_done']
 
 
 class NeedsTwoArgs(Exception):
@@ -94,6 +95,8 @@ class Ref:
         elif op == 'cancel_badexc':
             if not self.done():
                 return ('raise', 'TypeError')  # the cancellation error cannot be built: nothing may have changed
+        elif op == 'poll_done':
+            return ('ok', self.done())
         elif op == 'obs':
             if not self.announced:
                 return ('ok', 'pending')
@@ -157,6 +160,8 @@ class Real:
                 self.future.cancel()
             elif op == 'cancel_badexc':
                 c.cancel('m', NeedsTwoArgs)
+            elif op == 'poll_done':
+                return ('ok', self.future.done())
             elif op == 'final_task':
                 if not c.done():
                     c.set_result(('R', step))
@@ -651,12 +656,21 @@ def gen_cases(tier, seed):
     trigger = {'cancel': ['cancel', 'cancel_fatal', 'fut_cancel'], 'set_exception': ['set_exc', 'set_exc_override', 'fut_set_exc'], 'set_result': ['set_result'],
                'announce_done': ['announce'], '_run_': ['announce'], 'set_status_to_queued': ['queued'], 'set_status_to_running': ['running'],
                '_transition_to_non_done_state': ['queued', 'running'], 'add_done_callback': ['add_cb'], 'add_failure_cleanup': ['add_cleanup'],
-               'result': ['obs'], 'done': ['obs', 'cancel', 'set_exc']}
+               'result': ['obs'], 'done': ['poll_done', 'poll_done', 'cancel', 'set_exc']}
     for line in lines:
         meth = line[2].split('.', 1)[1]
         ops1 = next((v for k, v in trigger.items() if meth.startswith(k)), None)
         if not ops1:
             continue
+        if meth == 'done':
+            # a poller inside done() while a recorded failure / cancellation is replaced by the final step's success (and the other
+            # finished-to-finished moves): done() must stay True
+            for pre, o2 in ((['queued', 'running', 'cancel'], 'set_result'), (['queued', 'running', 'set_exc'], 'set_result'),
+                            (['queued', 'running', 'set_result'], 'fut_set_exc'), (['queued', 'running', 'set_exc'], 'set_exc_override'),
+                            (['queued', 'running'], 'cancel'), (['queued', 'running'], 'final_task')):
+                cases.append({'type': 'thr', 'threads': [[['poll_done', 10]], [[o2, 20], ['poll_done', 21]]], 'prefix': pre,
+                              'seed': rng.randrange(1 << 30), 'yield_p': 0.0, 'reps': 1,
+                              'window': {'lineno': line[1], 'nth': 0, 'name': f'futures.py:{line[1]}:{line[2]}'}})
         # the final task of the transfer arriving while the first thread sits at the line, then a user reading the result
         for o1 in ops1:
             cases.append({'type': 'thr', 'threads': [[[o1, 10]], [['final_task', 25], ['obs', 29]]], 'prefix': ['queued', 'running', 'add_cb', 'add_cleanup'],
